@@ -335,29 +335,47 @@ def _split_nodes(e):
 
 
 def flag_provenance(facts):
-    """a boolean decoded from the image's flags byte depends on exactly the documented flag bit(s); extra terms are listed
-    (reviewed) in spec/layouts.json -> flag_terms"""
+    """a boolean decoded from the image's flags byte depends on exactly the documented flag bit(s); the decodings of each reader
+    (as a bag: their order and the names of the locals do not matter) are listed (reviewed) in spec/layouts.json -> flag_terms"""
     sp = spec().get("flag_terms", {})
     out = []
-    seen = set()
+    per_fn = {}
     for key, terms, var, fn in flag_rows(facts):
-        want = sp.get(key)
-        seen.add(key)
-        if want is None:
-            out.append(ob("layout.flags", key, var["loc"], "unrecognised", "flag decoding `%s = %s` is not in the reviewed table (new reader code: review and add to spec/layouts.json)" % (var["n"], " | ".join(terms)), fn["qname"]))
-        elif terms == want:
-            out.append(ob("layout.flags", key, var["loc"], "discharged", "%s = %s" % (var["n"], " | ".join(terms)), fn["qname"]))
-        else:
-            out.append(ob("layout.flags", key, var["loc"], "violated", "`%s` is decoded as `%s`; the documented layout derives it from %s only: images written by other implementations / earlier releases are interpreted differently" % (var["n"], " | ".join(terms), " | ".join(want)), fn["qname"]))
-    for key in sp:
-        if key not in seen:
-            out.append(ob("layout.flags", key, "", "unrecognised", "the reviewed flag decoding %s (%s) is no longer found: re-review spec/layouts.json" % (key, " | ".join(sp[key])), ""))
+        per_fn.setdefault(key.rsplit(":flag#", 1)[0], []).append((terms, var, fn))
+    for fkey, rows in sorted(per_fn.items()):
+        want = [list(w) for w in sp.get(fkey, [])]
+        if fkey not in sp:
+            for terms, var, fn in rows:
+                out.append(ob("layout.flags", "%s:%s" % (fkey, "|".join(terms)), var["loc"], "unrecognised", "flag decoding `%s = %s` is in a reader that is not in the reviewed table (new reader code: review and add to spec/layouts.json)" % (var["n"], " | ".join(terms)), fn["qname"]))
+            continue
+        left = []
+        for terms, var, fn in rows:
+            if terms in want:
+                want.remove(terms)
+                out.append(ob("layout.flags", "%s:%s" % (fkey, "|".join(terms)), var["loc"], "discharged", "%s = %s" % (var["n"], " | ".join(terms)), fn["qname"]))
+            else:
+                left.append((terms, var, fn))
+        # what is left on both sides: a decoding that changed (paired in source order), a new one, or one that disappeared
+        for terms, var, fn in left:
+            if want:
+                w = want.pop(0)
+                out.append(ob("layout.flags", "%s:%s" % (fkey, "|".join(w)), var["loc"], "violated", "`%s` is decoded as `%s`; the documented layout derives it from %s only: images written by other implementations / earlier releases are interpreted differently" % (var["n"], " | ".join(terms), " | ".join(w)), fn["qname"]))
+            else:
+                out.append(ob("layout.flags", "%s:%s" % (fkey, "|".join(terms)), var["loc"], "unrecognised", "flag decoding `%s = %s` is not in the reviewed table (new reader code: review and add to spec/layouts.json)" % (var["n"], " | ".join(terms)), fn["qname"]))
+        for w in want:
+            out.append(ob("layout.flags", "%s:%s" % (fkey, "|".join(w)), rows[0][1]["loc"], "unrecognised", "the reviewed flag decoding %s is no longer found as a boolean local in %s (inlined into its use?): re-review spec/layouts.json" % (" | ".join(w), fkey), rows[0][2]["qname"]))
+    for fkey in sp:
+        if fkey not in per_fn:
+            out.append(ob("layout.flags", fkey, "", "unrecognised", "reader %s with reviewed flag decodings is no longer found: re-review spec/layouts.json" % fkey, ""))
     return out
 
 
 def flag_terms_table(facts):
-    """used by tools/gen_spec_c10.py to build the reviewed table"""
-    return {key: terms for key, terms, var, fn in flag_rows(facts)}
+    """used by tools/gen_spec_c10.py to build the reviewed table: reader -> list of term lists"""
+    res = {}
+    for key, terms, var, fn in flag_rows(facts):
+        res.setdefault(key.rsplit(":flag#", 1)[0], []).append(terms)
+    return res
 
 
 def estimation_state_written(facts):
